@@ -323,8 +323,12 @@ func (o *Overlay) checkPendingTreeMarshal(el *Roster) {
 			log.Error("Tree from Roster failed")
 			continue
 		}
-		// add the tree into our "database"
-		o.RegisterTree(tree)
+		// add the tree into our "database", unless it has been received since
+		// the test above (test and store in one step)
+		stored := o.treeStorage.setIfMissing(tree, false)
+		if stored {
+			o.checkPendingMessages(tree)
+		}
 	}
 	// the descriptions have been used: a later roster message must not store
 	// them again (e.g. after the tree has been removed)
@@ -567,7 +571,15 @@ func (o *Overlay) handleSendTree(si *network.ServerIdentity, rt *ResponseTree, i
 		return
 	}
 	log.Lvl4("Received new tree")
-	o.RegisterTree(tree)
+	// another answer for the same request may have been handled since the test
+	// above (two connections): test and store in one step, so that a tree that
+	// is present is never replaced by a peer
+	stored := o.treeStorage.setIfMissing(tree, true)
+	if !stored {
+		log.Error("ignoring tree received in the meantime")
+		return
+	}
+	o.checkPendingMessages(tree)
 }
 
 // Deprecated: roster is not sent anymore, only the tree
